@@ -6,8 +6,8 @@
 (* per library type that has both a JSON encoder and a JSON decoder:           *)
 (*   (1) text is a syntactically valid JSON document (RFC 8259),               *)
 (*   (2) v' = v  (equality of the abstract values, per type),                  *)
-(*   (3) a document that is not a valid encoding of a value of the type is     *)
-(*       answered with an error, never with a panic.                           *)
+(*   (3) no document makes a decoder panic; syntactically malformed JSON is an  *)
+(*       error; the encoder's own text for a value is always read as that value*)
 (* Nothing else about the text is fixed: whether a 64-bit integer is printed   *)
 (* as a number or as a string, upper or lower case hex, the spelling of an     *)
 (* address - all of that is free as long as (1)-(3) hold.  Section 5 gives the *)
@@ -27,6 +27,7 @@
 (*   message envelopes   [sum, hasop, op, v]                                   *)
 (* Type descriptors: [t |-> family, n |-> width] (+ of |-> inner for maybe).   *)
 EXTENDS Integers, Sequences, SequencesExt, FiniteSets, TLC, Prim
+CONSTANT Rich          \* TRUE: the larger value-class partition of the thorough tier (only the generator looks at it)
 
 (***************************************************************************)
 (* 1.  RFC 8259 well-formedness over a sequence of bytes / code points      *)
@@ -179,7 +180,7 @@ RECURSIVE InDomain(_, _)
 InDomain(ty, v) ==
   CASE ty.t \in IntFamilies  -> IntInDomain(ty, v)
     [] ty.t \in ByteFamilies -> StrLen(v) = 2 * NBytes(ty) /\ IsLowerHexCodes(StrToCodes(v))
-    [] ty.t = "bitstring"    -> StrLen(v) <= 1023 /\ IsBitStr(v)
+    [] ty.t = "bitstring"    -> IsBitStr(v)                              \* boc.BitString itself has no length limit (a cell has: 1023)
     [] ty.t \in CellFamilies -> v # "cyclic" /\ v # ""                   \* a finite tree (the recorder reports "cyclic" otherwise)
     [] ty.t = "addr"         -> AddrInDomain(v)
     [] ty.t = "account"      -> IsDecimal(v.wc) /\ SFits(v.wc, 32) /\ StrLen(v.hex) = 64 /\ IsLowerHexCodes(StrToCodes(v.hex))
@@ -219,11 +220,11 @@ RoundTripOK(x) ==
 RoundTripInv == (m.phase = "done" /\ InDomain(m.ty, m.v)) => RoundTripOK(m)
 
 (***************************************************************************)
-(* 5.  Documents that were not produced by the encoder (mutated, truncated, *)
-(*     wrong kind, out of range): error, or an ok parse of a document that  *)
-(*     still encodes a value of the type.  The loose reading of the simple  *)
-(*     forms: a canonical decimal numeral, bare or in quotes, denotes that  *)
-(*     integer; a quoted string of hex digits denotes those bytes.          *)
+(* 5.  Documents that were not produced by this run of the encoder (mutated,*)
+(*     truncated, wrong kind, out of range).  The loose reading of the      *)
+(*     simple forms (a canonical decimal numeral, bare or in quotes, denotes*)
+(*     that integer; a quoted string of hex digits denotes those bytes) is  *)
+(*     used only to produce documents and to count observations.            *)
 (***************************************************************************)
 IsQuoted(d) == Len(d) >= 2 /\ d[1] = 34 /\ d[Len(d)] = 34
 Inner(d)    == SubSeq(d, 2, Len(d) - 1)
@@ -236,12 +237,32 @@ IsHexDoc(d)  == IsQuoted(d) /\ \A i \in 2..(Len(d) - 1) : IsHexDigit(d[i])
 LowerCode(c) == IF c >= 65 /\ c <= 70 THEN c + 32 ELSE c
 HexOfDoc(d)  == CodesToStr([i \in 1..(Len(d) - 2) |-> LowerCode(d[i + 1])])
 
-\* res = "ok" | "err"; back = the abstract value the decoder produced (when ok)
-DecodeOK(ty, doc, res, back) ==
+\* What a decoder may produce.  The payload of a *known* message body is read by encoding/json's own struct
+\* decoder (unknown keys ignored, missing fields left zero) - not this library's code - so for the envelopes
+\* only the part the library decodes itself is constrained.
+RECURSIVE DecodedInDomain(_, _)
+DecodedInDomain(ty, v) ==
+  CASE ty.t \in BodyFamilies -> v.hasop \in {0, 1} /\ IsDecimal(v.op) /\ UFits(v.op, 32) /\ v.v # "cyclic"
+    [] ty.t = "maybe"        -> v.ex \in {0, 1} /\ (v.ex = 1 => DecodedInDomain(ty.of, v.v))
+    [] OTHER                 -> InDomain(ty, v)
+
+\* res = "ok" | "err"; back = the abstract value the decoder produced (when ok).
+\* What C20 requires of a decode of a foreign document ("malformed JSON is reported as an error without
+\* panicking", read narrowly): no panic (a Panic event has no action at all), and a syntactically malformed
+\* document is never accepted.  A well-formed document that denotes no value of the type is NOT required to be
+\* rejected.
+DecodeOK(ty, doc, res, back) == res = "err" \/ (res = "ok" /\ WF(doc))
+\* ... and when the document is exactly the text the encoder produces for a value v of the type's domain (the
+\* recorder finds v by encoding candidates and comparing the bytes), the decode must succeed and give v.
+EncoderTextOK(ty, v, res, back) == InDomain(ty, v) => (res = "ok" /\ Eq(ty, back, v))
+
+\* Observation only, never a verdict: an accepted document that, under the loose reading, encodes no value of
+\* the type (out-of-range or negative numeral, wrong-length hex, out-of-domain address ...).
+DecodeStrict(ty, doc, res, back) ==
   \/ res = "err"
   \/ /\ res = "ok"
-     /\ WF(doc)                                                     \* malformed JSON is never accepted
-     /\ InDomain(ty, back)                                          \* a decoder only produces values of the type
+     /\ WF(doc)
+     /\ DecodedInDomain(ty, back)
      /\ (ty.t \in DecFamilies /\ IsIntDoc(doc)) => back = IntOfDoc(doc)
      /\ (ty.t \in ByteFamilies /\ IsHexDoc(doc)) => back = HexOfDoc(doc)
 
@@ -274,7 +295,8 @@ BytePats(n) == { <<"zeros", Zeros(8 * n)>>, <<"ones", Ones(8 * n)>>, <<"alt", Al
 HexOfBits(b) == BytesToHex(BitsToBytes(b))
 ByteClasses(ty) == { [cls |-> p[1], v |-> HexOfBits(p[2])] : p \in BytePats(NBytes(ty)) }
 
-BitLens == {0, 1, 2, 3, 4, 5, 7, 8, 9, 12, 255, 256, 257, 1020, 1021, 1022, 1023}
+BitLens == IF Rich THEN 0..40 \cup 250..264 \cup 505..520 \cup 1000..1023
+           ELSE {0, 1, 2, 3, 4, 5, 7, 8, 9, 12, 255, 256, 257, 1020, 1021, 1022, 1023}
 BitPats(n) == IF n = 0 THEN { <<"empty", <<>> >> }
               ELSE { <<"zeros", Zeros(n)>>, <<"ones", Ones(n)>>, <<"alt", Alt(n)>>, <<"msb", <<1>> \o Zeros(n - 1)>>, <<"lsb", Zeros(n - 1) \o <<1>>>> }
 BitStringClasses == UNION { { [cls |-> StrCat(StrCat(ToString(n), ":"), p[1]), v |-> BitsToStr(p[2])] : p \in BitPats(n) } : n \in BitLens }
@@ -285,8 +307,8 @@ Anycasts == { <<0, 0, "0">>, <<1, 1, "0">>, <<1, 1, "1">>, <<1, 5, "21">>, <<1, 
 AddrBitPats(n) == IF n = 0 THEN { <<>> } ELSE { Zeros(n), Ones(n), Alt(n) }
 StdWcs == {"-128", "-127", "-1", "0", "1", "127"}
 VarWcs == {"-2147483648", "-32768", "-129", "-128", "-1", "0", "127", "128", "255", "65536", "2147483647"}
-ExternLens == {0, 1, 3, 4, 8, 255, 256, 511}
-VarLens    == {0, 1, 4, 7, 8, 252, 255, 256, 257, 260, 511}
+ExternLens == IF Rich THEN 0..17 \cup 250..260 \cup 500..511 ELSE {0, 1, 3, 4, 8, 255, 256, 511}
+VarLens    == IF Rich THEN 0..9 \cup 248..264 \cup {510, 511} ELSE {0, 1, 4, 7, 8, 252, 255, 256, 257, 260, 511}
 AddrValues ==
        { NoAny("none", "0", "") }
   \cup { NoAny("extern", "0", BitsToStr(p)) : p \in UNION { AddrBitPats(n) : n \in ExternLens } }
@@ -345,7 +367,8 @@ SimpleTypes ==
 MaybeInner == { T("uint", 8), T("int", 64), T("uint", 256), T("varuint", 16), T("grams", 0), T("bits", 256),
                 T("addr", 0), T("cell", 0), T("bitstring", 0) }
 Maybe(ty)  == [t |-> "maybe", n |-> 0, of |-> ty]
-MaybeTypes == { Maybe(ty) : ty \in MaybeInner } \cup { Maybe(Maybe(T("uint", 8))) }
+\* Maybe[Maybe[T]] is not in the list: the library ships no such instantiation, so it is not "a library type"
+MaybeTypes == { Maybe(ty) : ty \in MaybeInner }
 AllTypes   == SimpleTypes \cup MaybeTypes
 
 RECURSIVE Classes(_)
